@@ -4,7 +4,7 @@ from __future__ import annotations
 import simplify
 
 ID = "C14"
-THEOREMS = ["proj_of_tuple", "proj_of_list", "proj_of_dict_key", "proj_of_dict_attr", "name_substituted"]
+THEOREMS = ["proj_of_tuple", "proj_of_list", "proj_of_dict_key", "proj_of_dict_attr", "name_substituted", "rule_tuple_index", "rule_list_index"]
 RULE = (
     "generated pack chains (harness/simplify.py: gen_packchain): 2-5 Select/Where/SelectMany stages over ds in function "
     "form; every intermediate stage packages leaf expressions into a random nesting (depth <= 2) of tuples, lists and "
